@@ -1,0 +1,41 @@
+//go:build verif
+
+package peering
+
+import (
+	"github.com/mycoria/mycoria/frame"
+)
+
+// VerifHandshake drives the shipped peering handshake state machine step by
+// step, so that a simulated remote end can take part in a handshake with its
+// own identity while choosing what it sends.
+type VerifHandshake struct {
+	st *peeringRequestState
+}
+
+// VerifNewHandshake creates the handshake state and the signed peering
+// request exactly as link setup does.
+func (p *Peering) VerifNewHandshake(client bool) (*VerifHandshake, frame.Frame, error) {
+	st, f, err := p.createPeeringRequest(client)
+	if err != nil {
+		return nil, nil, err
+	}
+	return &VerifHandshake{st: st}, f, nil
+}
+
+// SetChallenge replaces the challenge this end expects to be echoed.
+func (h *VerifHandshake) SetChallenge(challenge []byte) {
+	h.st.challenge = append([]byte(nil), challenge...)
+}
+
+// Handle feeds the next handshake frame to the shipped handler and returns
+// the reply it produced, if any.
+func (h *VerifHandshake) Handle(in frame.Frame) (frame.Frame, error) {
+	return h.st.handle(in)
+}
+
+// Finalize derives the link encryption session like link setup does.
+func (h *VerifHandshake) Finalize() error {
+	_, err := h.st.finalize()
+	return err
+}
